@@ -4,7 +4,7 @@
     well-formed and growth-closed (C06), [covers h f lo hi] that replica file [f]
     is content-wise the compaction of TXIDs lo+1..hi. *)
 From Coq Require Import List NArith Bool Sorted.
-From LS Require Import Base.PMap Follow.Follow Follow.Sem Follow.Hist Follow.Algo Follow.Proofs Follow.Converge Follow.Examples.
+From LS Require Import Base.PMap Follow.Follow Follow.Sem Follow.Hist Follow.Algo Follow.Proofs Follow.Converge Follow.Resume Follow.Examples.
 
 Theorem follow_step : forall (h : list txn), wf_seg 0 h ->
   forall rep : replica, (forall f, In f (rep_files rep) -> exists lo hi, covers h f lo hi) ->
@@ -87,17 +87,55 @@ Theorem kill_keeps_sidecar_invariant : forall (h : list txn), wf_seg 0 h ->
 Proof. exact Proofs.kill_keeps_inv. Qed.
 Print Assumptions kill_keeps_sidecar_invariant.
 
-Theorem resume_from_any_reached_txid_refuted :
-  exists (snaps : list (N * N)) (sidecar : N),
-    sidecar <> 0%N /\ (forall s, In s snaps -> (fst s <= sidecar)%N) /\
-    resume_check true sidecar snaps = RefuseAhead.
-Proof. exact Examples.resume_from_any_reached_txid_refuted. Qed.
-Print Assumptions resume_from_any_reached_txid_refuted.
+Theorem resume_accepted : forall (sidecar : N) (snaps : list (N * N)) (rep : replica),
+  sidecar <> 0%N ->
+  (forall smin smax tl, rev snaps = (smin, smax) :: tl ->
+     (smin <= sidecar)%N /\ ((sidecar <= smax)%N \/ exists f, In f (rep_files rep) /\ (sidecar <= f_max f)%N)) ->
+  resume_check true sidecar snaps rep = Resume sidecar.
+Proof. exact Resume.resume_accepted. Qed.
+Print Assumptions resume_accepted.
 
-Theorem resume_after_kill_before_first_sidecar_refuted :
-  forall snaps, resume_check true 0%N snaps = RefuseNoTxid.
-Proof. exact Examples.resume_after_kill_before_first_sidecar_refuted. Qed.
-Print Assumptions resume_after_kill_before_first_sidecar_refuted.
+Theorem resume_refused_beyond_replica : forall (sidecar : N) (snaps : list (N * N)) (rep : replica) smin smax tl,
+  rev snaps = (smin, smax) :: tl -> (smin <= sidecar)%N -> (smax < sidecar)%N ->
+  (forall f, In f (rep_files rep) -> (f_max f < sidecar)%N) ->
+  resume_check true sidecar snaps rep = RefuseAhead.
+Proof. exact Resume.resume_refused_beyond_replica. Qed.
+Print Assumptions resume_refused_beyond_replica.
+
+Theorem initial_restore_kill_safe : forall (integrity : bool) (partials : list image) (target : image) (t : N)
+  (od0 : outdir) (k : nat),
+  od_db od0 = None ->
+  let od := run_rsteps od0 (firstn k (initial_restore true integrity partials target t)) in
+  match od_db od with
+  | None => forall snaps rep, restart_decision od snaps rep = Fresh
+  | Some im => im = target /\ od_side od = t
+  end.
+Proof. exact Resume.initial_restore_kill_safe. Qed.
+Print Assumptions initial_restore_kill_safe.
+
+Theorem initial_restore_kill_resumable : forall (h : list txn) (integrity : bool) (partials : list image)
+  (t' : nat) (od0 : outdir) (k : nat),
+  (t' <= length h)%nat -> od_db od0 = None ->
+  let od := run_rsteps od0 (firstn k (initial_restore true integrity partials (img_at h t') (N.of_nat t'))) in
+  match od_db od with
+  | None => forall snaps rep, restart_decision od snaps rep = Fresh
+  | Some im => fo_inv h (mkFo im (od_side od) (od_side od))
+  end.
+Proof. exact Resume.initial_restore_kill_resumable. Qed.
+Print Assumptions initial_restore_kill_resumable.
+
+Theorem resume_old_rule_refuted :
+  exists (snaps : list (N * N)) (sidecar : N) (rep : replica),
+    resume_check_old true sidecar snaps = RefuseAhead /\
+    resume_check true sidecar snaps rep = Resume sidecar.
+Proof. exact Resume.resume_old_rule_refuted. Qed.
+Print Assumptions resume_old_rule_refuted.
+
+Theorem initial_restore_old_order_refuted : forall target t snaps rep,
+  let od := run_rsteps (mkOd None None 0%N) (firstn 2 (initial_restore false false nil target t)) in
+  od_db od = Some target /\ od_side od = 0%N /\ restart_decision od snaps rep = RefuseNoTxid.
+Proof. exact Resume.initial_restore_old_order_refuted. Qed.
+Print Assumptions initial_restore_old_order_refuted.
 
 Theorem failed_apply_stops_poll : forall (rep : replica) (fo : follower),
   let r := follow_tick rep fo in
